@@ -362,6 +362,8 @@ def fmt_op(op):
         return f"store_annotation({POOL[op['model']]['name']!r}, {op['text']!r})"
     if k == 'retrieve_log':
         return 'retrieve_log()'
+    if k == 'retrieve_name':
+        return f"retrieve_model_entry({POOL[op['model']]['name']!r})"
     return f"{'sub1.' if op.get('sub') else ''}{k}({POOL[op['model']]['name']})"
 
 
@@ -576,7 +578,7 @@ class Infl:
                 self.logs.append((o['sev'], log_path_of(o), o['msg']))
             elif k == 'annotate':
                 self.annot_alts.setdefault(POOL[o['model']]['name'], set()).add(o['text'])
-            elif k in ('retrieve', 'retrieve_log'):
+            elif k in ('retrieve', 'retrieve_log', 'retrieve_name'):
                 pass
             else:
                 e = POOL[o['model']]
